@@ -129,6 +129,72 @@ theorem drain_uptodate (w : World) (wf : List WT) (order : List Nat)
     simp only [Option.some.injEq] at hti hto
     omega
 
+/-- **end to end**: on a workflow that validation accepts, with no file dated after "now": let the
+    cluster finish successfully the tracked jobs of the targets in `order`, in any order in which a
+    target finishes after those of its dependencies that are in `order` too (what afterok / -hold_jid /
+    done() enforce: C07), the other dependencies' outputs being present (they were complete). Then
+    EVERY drained target that declares outputs is up to date — so `hfiles` of `converges` holds and
+    status reports it completed, the re-run submits nothing that has outputs. -/
+theorem drain_completes (w : World) (wf : List WT) (g : Graph String)
+    (hg : (w.proj wf none).graph = .ok g)
+    (hid : ∀ a ∈ wf, ∀ b ∈ wf, a.id = b.id → a = b)
+    (hnow : ∀ p m, alook p w.files = some m → m ≤ w.clock)
+    (order : List Nat) (hnodup : order.Nodup)
+    (htracked : ∀ t ∈ order, TrackedJob w wf t)
+    (hlegal : ∀ p t r, order = p ++ t :: r → ∀ d ∈ g.depsOf t, d ∈ order → d ∈ p)
+    (hdone : ∀ t ∈ order, ∀ d ∈ g.depsOf t, d ∉ order → ∀ q ∈ C16.outsF w.dir wf d, ∃ m, alook q w.files = some m)
+    (a : WT) (ha : a ∈ wf) (ht : a.id ∈ order) (hout : a.outsAbs w.dir ≠ []) :
+    let w' := order.foldl (fun w t => w.finishT wf t) w
+    shouldRun (fun p => alook p w'.files) false (a.insAbs w.dir) (a.outsAbs w.dir) = some false := by
+  intro w'
+  obtain ⟨hdisj, hpost⟩ := stamp_hyps w wf g hg hid hnow order (by
+    intro p t r hsplit d hd
+    by_cases hdo : d ∈ order
+    · exact Or.inl (hlegal p t r hsplit d hd hdo)
+    · exact Or.inr ⟨hdo, hdone t (by rw [hsplit]; simp) d hd hdo⟩)
+  have hout' : C16.outsF w.dir wf a.id ≠ [] := by rw [(outsF_of w.dir wf hid a ha).1]; exact hout
+  have := drain_uptodate w wf order htracked hnodup hdisj hpost a.id ht hout'
+  rw [(outsF_of w.dir wf hid a ha).1, (outsF_of w.dir wf hid a ha).2] at this
+  exact this
+
+/-- **what the next `gwf status` / `gwf run` computes**: after the drain, every drained target that
+    declares outputs and whose spec was recorded at submission (C18.submit_records) is NOT stale in the
+    workflow the scheduling pass works on — the premise `hfiles` of `converges`, now a theorem -/
+theorem drain_not_stale (w : World) (wf : List WT) (g : Graph String)
+    (hg : (w.proj wf none).graph = .ok g)
+    (hid : ∀ a ∈ wf, ∀ b ∈ wf, a.id = b.id → a = b)
+    (hnow : ∀ p m, alook p w.files = some m → m ≤ w.clock)
+    (order : List Nat) (hnodup : order.Nodup)
+    (htracked : ∀ t ∈ order, TrackedJob w wf t)
+    (hlegal : ∀ p t r, order = p ++ t :: r → ∀ d ∈ g.depsOf t, d ∈ order → d ∈ p)
+    (hdone : ∀ t ∈ order, ∀ d ∈ g.depsOf t, d ∉ order → ∀ q ∈ C16.outsF w.dir wf d, ∃ m, alook q w.files = some m)
+    (a : WT) (ha : a ∈ wf) (ht : a.id ∈ order) (hout : a.outsAbs w.dir ≠ [])
+    (hspec : w.specChanged a = false) (g' : Graph String) :
+    let w' := order.foldl (fun w t => w.finishT wf t) w
+    ((w'.proj wf none).wf g').stale a.id = false := by
+  intro w'
+  have hup := drain_completes w wf g hg hid hnow order hnodup htracked hlegal hdone a ha ht hout
+  have hdir : w'.dir = w.dir := by
+    have : ∀ (l : List Nat) (w0 : World), (∀ t ∈ l, TrackedJob w0 wf t) →
+        (l.foldl (fun w t => w.finishT wf t) w0).dir = w0.dir := by
+      intro l
+      induction l with
+      | nil => intro _ _; rfl
+      | cons t rest ih =>
+        intro w0 h
+        simp only [List.foldl_cons]
+        have ht0 := h t (by simp)
+        rw [ih _ (fun u hu => trackedJob_preserved w0 wf t u ht0 (h u (by simp [hu]))), (finishT_fields w0 wf t ht0).1]
+    exact this order w htracked
+  have hspec' : w'.specChanged a = false := by
+    have h1 : w'.hashes = w.hashes := (drain_hashes wf order w).1
+    have h2 : w'.hashing = w.hashing := (drain_hashes wf order w).2
+    simp only [World.specChanged, h1, h2]
+    simpa [World.specChanged] using hspec
+  apply not_stale_of_uptodate w' wf g' none hid a ha hspec'
+  rw [hdir]
+  exact hup
+
 /-- draining changes no file that is not a declared output of a drained target and never the tracked
     map: a target that was not submitted (it was complete) keeps exactly the files it was judged on -/
 theorem drain_frame (w : World) (wf : List WT) (order : List Nat)
